@@ -55,7 +55,12 @@ type parser struct {
 	validDirectives []string    // a directive must be valid or it's an error
 	eof             bool        // if we encounter a valid EOF in a hard place
 	definedSnippets map[string][]Token
+	importCount     int // number of import statements expanded so far
 }
+
+// maxImports bounds the number of import statements expanded while parsing
+// one input, which turns import cycles into an error.
+const maxImports = 10000
 
 func (p *parser) parseAll() ([]ServerBlock, error) {
 	var blocks []ServerBlock
@@ -236,6 +241,12 @@ func (p *parser) doImport() error {
 	importPattern := replaceEnvVars(p.Val())
 	if importPattern == "" {
 		return p.Err("Import requires a non-empty filepath")
+	}
+	// an import (or snippet) that directly or indirectly imports itself would
+	// splice tokens forever; give up with an error instead of hanging
+	p.importCount++
+	if p.importCount > maxImports {
+		return p.Errf("Too many imports (%d); is there an import cycle involving %s?", maxImports, importPattern)
 	}
 	if p.NextArg() {
 		return p.Err("Import takes only one argument (glob pattern or file)")
